@@ -518,6 +518,12 @@ class C03(Prop):
         for t in literal_spellings(rng, 120 if quick else 1500):
             cases.append({"kind": "text", "src": t, "binds": {}, "package": None})
             cases.append({"kind": "text", "src": f"[{t}, {t}].exists(x, x == {t}) || {t} == {t}", "binds": {}, "package": None})
+        # (d'') macro traversal: every macro over every sequence of element outcomes true/false/raises
+        cases += macro_seq_cases(rng, quick)
+        # (d3) identifier spellings and dotted (namespace) activations; (d4) histories on one program
+        cases += name_cases(rng, quick)
+        cases += dotted_cases(rng, quick)
+        cases += hist_cases(rng, quick)
         # (e) primitives on the model's pool (driver fidelity + laws)
         prims = []
         for op, (_fn, ar) in PRIM_OPS.items():
@@ -566,6 +572,11 @@ class C03(Prop):
             return self._impl_prim(c)
         if c["kind"] == "law":
             return self._impl_law(c)
+        if c["kind"] == "hist":
+            with mem_cap():
+                out = f"I={run_hist(c['srcs'], c['steps'], 'I')} || C={run_hist(c['srcs'], c['steps'], 'C')}"
+            c["_impl"] = out
+            return out
         src, bd, pkg = self._src_binds(c)
         with mem_cap():
             i = run_one(src, "I", bd, pkg)
@@ -605,7 +616,7 @@ class C03(Prop):
 
     # -- model -----------------------------------------------------------------------------
     def model_line(self, c):
-        if c["kind"] == "law":
+        if c["kind"] in ("law", "hist"):
             return None
         if c["kind"] == "prim":
             return f"P {c['op']} {len(c['args'])} " + " ".join(PRIM_POOL[i][0] for i in c["args"])
@@ -646,6 +657,8 @@ class C03(Prop):
             return self._oracle_prim(c, out)
         if c["kind"] == "law":
             return self._oracle_law(c, out)
+        if c["kind"] == "hist":
+            return self._oracle_hist(c, out)
         i, k = split_io(out)
         src = self._src_binds(c)[0]
         if i == "TIMEOUT" or k == "TIMEOUT":
@@ -663,6 +676,19 @@ class C03(Prop):
         ok_ = k if is_value(k) else "error"
         if oi != ok_:
             return f"{src!r}: interpreter gives {i}, compiled runner gives {k}"
+        return None
+
+    def _oracle_hist(self, c, out):
+        i, k = split_io(out)
+        if k.startswith("CONSTRUCT ") or i.startswith("CONSTRUCT "):
+            return None if i == k else f"{c['srcs']}: program construction differs: interpreter {i}, compiled {k}"
+        for n, (oi, ok_) in enumerate(zip(i.split(";"), k.split(";"))):
+            vi = oi if is_value(oi) else "error"
+            vk = ok_ if is_value(ok_) else "error"
+            if vi != vk:
+                j, b = c["steps"][n]
+                return (f"evaluation #{n + 1} of one program for {c['srcs'][j]!r} with activation {b} (after "
+                        f"{[st[1] for st in c['steps'][:n]]}): interpreter gives {oi}, compiled runner gives {ok_}")
         return None
 
     def _oracle_law(self, c, out):
@@ -716,6 +742,8 @@ class C03(Prop):
             return LAW_ERR in c["args"] or out.startswith("raise")
         if c["kind"] == "prim":
             return "e" in [PRIM_POOL[i][0] for i in c["args"]] or out.startswith("raise")
+        if c["kind"] == "hist":
+            return len(set(json.dumps(st[1], sort_keys=True) for st in c["steps"])) > 1
         a = self._ast(c)
         if a[0] == "raw":
             return "err" in out or "EXC" in out
@@ -755,27 +783,27 @@ class C03(Prop):
             return self._ast(c)
 
         def has_pybool(c):
-            if c["kind"] in ("prim", "law"):
+            if c["kind"] in ("prim", "law", "hist"):
                 return False
             return "has" in A.kinds(ast(c)) or (c["kind"] == "text" and "has(" in c["src"])
 
         def error_value_consumer(c):
-            if c["kind"] in ("prim", "law"):
+            if c["kind"] in ("prim", "law", "hist"):
                 return False
             i, k = io(c)
             return bool(unsafe_sites(ast(c))) and not is_value(i) and is_value(k)
 
         def interp_escape(c):
-            if c["kind"] in ("prim", "law"):
+            if c["kind"] in ("prim", "law", "hist"):
                 return False
             i, _k = io(c)
             return i.startswith("EXC ") and i != "EXC RecursionError"
 
         def outside_builtin_syntax(c):
-            return c["kind"] not in ("prim", "law") and ast(c)[0] == "raw" and ast(c)[2] != "parse"
+            return c["kind"] not in ("prim", "law", "hist") and ast(c)[0] == "raw" and ast(c)[2] != "parse"
 
         def python_name_clash(c):
-            if c["kind"] in ("prim", "law"):
+            if c["kind"] in ("prim", "law", "hist"):
                 return False
             a = ast(c)
             if a[0] == "raw":
@@ -783,13 +811,13 @@ class C03(Prop):
             return bool(python_hostile_names(a))
 
         def macro_nonbool_body(c):
-            return c["kind"] not in ("prim", "law") and ast(c)[0] != "raw" and nonbool_macro_body(ast(c))
+            return c["kind"] not in ("prim", "law", "hist") and ast(c)[0] != "raw" and nonbool_macro_body(ast(c))
 
         def function_object_value(c):
             if c["kind"] == "law":
                 # operator.getitem applied to a type object and an error object: typing.GenericAlias
                 return c["fn"] == "_[_]" and LAW_POOL[c["args"][0]] in ("celpy.celtypes.IntType", "celpy.celtypes.ListType")
-            if c["kind"] == "prim":
+            if c["kind"] in ("prim", "hist"):
                 return False
             a = ast(c)
             if a[0] == "raw":
@@ -871,6 +899,195 @@ CONTEXTS = ["@", "true || @ == 1", "@ == 1 || true", "false && @ == 1", "@ == 1 
             "true ? 1 : @", "false ? @ : 2", "(@ == 1) ? 1 : 2", "[1, 2].exists(i, i == 2 || @ == 1)", "[1, 2].all(i, i == 1 && @ == 1)",
             "[@ == 1 || true]", "type(@)", "!(@ == 1) || true", "[0].map(i, true || @ == 1)", "[0].filter(i, true || @ == 1)",
             "{'k': true || @ == 1}", "size([@]) > 0 || true", "dyn(@) == dyn(@) || true", "[1].exists_one(i, true || @ == 1)"]
+
+
+# ------------------------------------------------------------------------------------------
+# macro traversal stream (round 2): WHERE in the source an element decides / fails.
+# The two runners implement the five macros twice (Evaluator.member_dot_arg vs. the `macro_*` helpers the
+# transpiled text calls).  Whether they agree depends on the ORDER of element outcomes, not on the elements: a helper
+# that stops early (a second match of exists_one, the first true of exists, …), skips, re-orders or evaluates lazily
+# behaves the same on sources without a failing element.  So every macro is run over every sequence of element
+# outcomes T (predicate true) / F (false) / E (predicate raises) up to a length, for several ways of raising.
+# ------------------------------------------------------------------------------------------
+
+def _i(n: int) -> Any:
+    return ["lit", "int", str(n)]
+
+
+def _s(t: str) -> Any:
+    return ["lit", "string", "'" + t + "'"]
+
+
+_X = ["id", "x"]
+# style -> (predicate body over x, value body over x (map), {T: elems, F: elems, E: elems})
+SEQ_STYLES: Dict[str, Any] = {
+    # ZeroDivisionError
+    "div": (["bin", ">", ["bin", "/", _i(7), _X], _i(0)], ["bin", "/", _i(7), _X],
+            {"T": [_i(1), _i(2), _i(7)], "F": [_i(-1), _i(-3), _i(8)], "E": [_i(0)]}),
+    # TypeError ("no such overload") on a heterogeneous source
+    "mod": (["bin", "==", ["bin", "%", _X, _i(2)], _i(0)], ["bin", "%", _X, _i(2)],
+            {"T": [_i(2), _i(4), _i(0)], "F": [_i(1), _i(3), _i(-1)], "E": [_s("six"), ["lit", "null", "null"], ["list", [_i(1)]]]}),
+    # IndexError
+    "idx": (["bin", ">", ["idx", ["id", "vl"], _X], _i(0)], ["idx", ["id", "vl"], _X],
+            {"T": [_i(0), _i(1)], "F": [_i(2)], "E": [_i(3), _i(-1), _i(99)]}),
+    # overflow (ValueError)
+    "ovf": (["bin", ">", ["bin", "*", _X, _i(2)], _i(0)], ["bin", "*", _X, _i(2)],
+            {"T": [_i(1), _i(3)], "F": [_i(-1), _i(0)], "E": [["id", "vmax"], _i(9223372036854775807), _i(-9223372036854775807)]}),
+    # TypeError of an ordering relation
+    "cmp": (["bin", "<", _X, _i(2)], ["bin", "-", _X, _i(2)],
+            {"T": [_i(1), _i(0), _i(-3)], "F": [_i(2), _i(7)], "E": [_s("a"), _s(""), ["list", []]]}),
+}
+SEQ_CONTEXTS_BOOL = ["@", "@", "@", "cond", "not", "eq", "listed", "nested"]
+SEQ_CONTEXTS_LIST = ["@", "@", "@", "size", "idx0", "nested"]
+
+
+def seq_case(rng: random.Random, macro: str, style: str, seq: str, ctx: Optional[str] = None, var: str = "x") -> Dict[str, Any]:
+    pred, val, elems = SEQ_STYLES[style]
+    src = ["list", [rng.choice(elems[k]) for k in seq]]
+    body = val if macro == "map" else pred
+    if var != "x":
+        body = json.loads(json.dumps(body).replace('["id", "x"]', json.dumps(["id", var])))
+    m: Any = ["macro", macro, src, var, body]
+    boolm = macro in ("all", "exists", "exists_one")
+    if ctx is None:
+        ctx = rng.choice(SEQ_CONTEXTS_BOOL if boolm else SEQ_CONTEXTS_LIST)
+    if ctx == "cond":
+        m = ["cond", m, _s("one"), _s("not one")]
+    elif ctx == "not":
+        m = ["un", "!", m]
+    elif ctx == "eq":
+        m = ["bin", "==", m, ["lit", "bool", "true"]]
+    elif ctx == "listed":
+        m = ["list", [m, ["lit", "bool", "false"]]]
+    elif ctx == "size":
+        m = ["call", "size", [m]]
+    elif ctx == "idx0":
+        m = ["idx", m, _i(0)]
+    elif ctx == "nested":
+        # the macro as the body of an outer macro whose source has two elements: the inner traversal runs twice
+        m = ["macro", "map" if not boolm else rng.choice(["all", "exists", "filter", "map"]), ["list", [_i(1), _i(2)]], "y", m]
+    return {"kind": "expr", "ast": m, "stream": f"seq:{macro}:{style}:{seq or '-'}"}
+
+
+def macro_seq_cases(rng: random.Random, quick: bool) -> List[Dict[str, Any]]:
+    out = []
+    styles = sorted(SEQ_STYLES)
+    full = 3 if quick else 5
+    seqs = [""] + ["".join(p) for n in range(1, full + 1) for p in itertools.product("TFE", repeat=n)]
+    for macro in A.MACROS:
+        for seq in seqs:
+            for st in (rng.sample(styles, 2) if quick else styles):
+                out.append(seq_case(rng, macro, st, seq, ctx="@" if rng.random() < 0.6 else None))
+    # longer sources: random outcome sequences, matches before / after / between failing elements
+    for _ in range(250 if quick else 6000):
+        n = rng.randint(full + 1, full + 3)
+        seq = "".join(rng.choice("TTFFE") for _ in range(n))
+        out.append(seq_case(rng, rng.choice(A.MACROS), rng.choice(styles), seq, var=rng.choice(["x", "x", "e", "it"])))
+    return out
+
+
+# ------------------------------------------------------------------------------------------
+# histories (round 2): ONE Environment, its programs built once, evaluated over a SEQUENCE of activations.
+# The property quantifies over every activation; a compiled program that keeps state between evaluations (a reused
+# working activation, a memo of resolved names, …) differs from the interpreter only on the 2nd, 3rd … evaluation.
+# ------------------------------------------------------------------------------------------
+
+HIST_VALUES = {"a": ["celpy.celtypes.IntType(1)", "celpy.celtypes.IntType(5)", "celpy.celtypes.StringType('s')"],
+               "b": ["celpy.celtypes.IntType(2)", "celpy.celtypes.IntType(0)", "celpy.celtypes.BoolType(True)"],
+               "m.k": ["celpy.celtypes.IntType(3)", "celpy.celtypes.IntType(4)"],
+               "m.j": ["celpy.celtypes.IntType(9)"]}
+HIST_SRCS = ["a", "b", "a + b", "a > 0 || b > 0", "b > 0 && a > 0", "[a].exists(x, x == b)", "[1, 2].map(x, x + a)", "a == b ? a : b",
+             "m.k", "m.j", "m.k + a", "[a, b]", "true || a > 0", "[1, 2].filter(x, x > b)", "size([a]) + b", "m.k > 0 ? m.j : a"]
+
+
+def hist_cases(rng: random.Random, quick: bool) -> List[Dict[str, Any]]:
+    out = []
+    names = sorted(HIST_VALUES)
+    for _ in range(60 if quick else 1500):
+        srcs = rng.sample(HIST_SRCS, rng.choice([1, 1, 2]))
+        steps = []
+        for _k in range(rng.randint(2, 5)):
+            if rng.random() < 0.12:
+                chosen = []
+            else:
+                chosen = [n for n in names if rng.random() < 0.55]
+            steps.append([rng.randrange(len(srcs)), {n: rng.choice(HIST_VALUES[n]) for n in chosen}])
+        out.append({"kind": "hist", "srcs": srcs, "steps": steps})
+    return out
+
+
+def run_hist(srcs: List[str], steps: List[Any], runner: str) -> str:
+    """outcomes of the steps, `;`-joined, on programs that are built once per source in one Environment"""
+    import celpy
+    from celpy.evaluation import CELEvalError
+    try:
+        env = celpy.Environment(runner_class=celrun.RUNNERS[runner])
+        progs = [env.program(env.compile(s)) for s in srcs]
+    except Exception as ex:  # noqa
+        return f"CONSTRUCT {type(ex).__name__}"
+    outs = []
+    for i, b in steps:
+        try:
+            outs.append(celrun.canon(progs[i].evaluate({k: _eval_ctor(v) for k, v in b.items()})))
+        except CELEvalError:
+            outs.append("err")
+        except RecursionError:
+            outs.append("EXC RecursionError")
+        except Exception as ex:  # noqa
+            outs.append(f"EXC {type(ex).__name__}")
+    return ";".join(outs)
+
+
+# ------------------------------------------------------------------------------------------
+# names (round 2): how an identifier is pasted into / looked up by the transpiled text depends on its SPELLING
+# (Python keywords, soft keywords, builtins, names the transpiled module itself uses) and on the SHAPE of the
+# activation (dotted names make the head a namespace whose members are looked up by NameContainer methods).
+# ------------------------------------------------------------------------------------------
+
+def name_pool() -> List[str]:
+    import keyword
+    soft = list(getattr(keyword, "softkwlist", []))
+    cel_reserved = ["as", "break", "const", "continue", "else", "for", "function", "if", "import", "in", "let", "loop", "package",
+                    "namespace", "return", "var", "void", "while"]
+    pythonish = ["print", "len", "self", "activation", "celpy", "CEL", "base_activation", "result", "ex_0", "ex_0_l", "__class__",
+                 "__dict__", "_", "__", "int_", "None_", "vars", "value", "items", "keys", "parent", "name", "x1", "Activation"]
+    seen, out = set(), []
+    for n in list(keyword.kwlist) + soft + cel_reserved + pythonish:
+        if n not in seen:
+            seen.add(n)
+            out.append(n)
+    return out
+
+
+NAME_TEMPLATES = [("@ + 1", True), ("[1, 2, 3].filter(@, @ > 1)", False), ("@ > 1 || true", False), ("[@, 1]", True),
+                  ("[1, 2].map(@, @ * 2)", False), ("[3].exists_one(@, @ == 3) ? @ : 0", True), ("{'k': @}.k", True)]
+
+
+def name_cases(rng: random.Random, quick: bool) -> List[Dict[str, Any]]:
+    out = []
+    for n in name_pool():
+        tmpls = rng.sample(NAME_TEMPLATES, 3) if quick else NAME_TEMPLATES
+        for t, bound in tmpls:
+            out.append({"kind": "text", "src": t.replace("@", n), "binds": {n: "celpy.celtypes.IntType(7)"} if bound else {},
+                        "package": None, "stream": "name"})
+    return out
+
+
+DOTTED_BINDS = {"cfg.limit": "celpy.celtypes.IntType(10)", "cfg.name": "celpy.celtypes.StringType('n')",
+                "cfg.sub.deep": "celpy.celtypes.IntType(1)", "top": "celpy.celtypes.IntType(3)",
+                "cfg.tags": "celpy.celtypes.ListType([celpy.celtypes.IntType(1)])"}
+DOTTED_REFS = ["cfg.limit", "cfg.name", "cfg.sub.deep", "cfg.tags", "top", "cfg.burst", "cfg.sub.nope", "cfg.limit.x", "cfg.nope.deeper",
+               "top.x", "other.limit", "cfg.sub", "cfg"]
+DOTTED_CONTEXTS = ["@", "@ == null", "[cfg.limit, @]", "@ == 1 || true", "true || @ == 1", "@ == 1 || false", "[1].map(x, @)",
+                   "cfg.sub.deep == 1 ? @ : 0", "size([@])", "{'k': @}", "[1, 2].all(x, @ == x || true)", "@ + top", "dyn(@)", "type(@)"]
+
+
+def dotted_cases(rng: random.Random, quick: bool) -> List[Dict[str, Any]]:
+    out = []
+    for ref in DOTTED_REFS:
+        for ctx in (rng.sample(DOTTED_CONTEXTS, 4) + ["@"] if quick else DOTTED_CONTEXTS):
+            out.append({"kind": "text", "src": ctx.replace("@", ref), "binds": dict(DOTTED_BINDS), "package": None, "stream": "dotted"})
+    return out
 
 
 class FragGen:
